@@ -671,7 +671,8 @@ Inductive eref := RNode (id : str) | RComp (id : str) | RNS (id : str) | RLink (
 Definition ref_id (r : eref) := match r with RNode i | RComp i | RNS i | RLink i | RIface i => i end.
 Definition ref_cls (r : eref) := match r with RNode _ => KNode | RComp _ => KComp | RNS _ => KNS | RLink _ => KLink | RIface _ => KCP end.
 
-Inductive pname := PName | PSite | PCapacities | PLabels | PDetails | PTypeNode.
+(* PNames: the name given to the PLURAL entry point set_properties(name=...) *)
+Inductive pname := PName | PSite | PCapacities | PLabels | PDetails | PTypeNode | PNames.
 Inductive uname := UName | UType | USite | UCapacities | ULabels | UDetails | UNoSuch.
 
 (* proposed C07-3: the elements among which a new name of x must be free (the scopes the constructors check) *)
@@ -704,6 +705,11 @@ Definition elem_set_property (fl : flags) (r : eref) (p : pname) (v : str) : M u
   | PCapacities | PDetails => update_node x (fun n => n)
   | PLabels => update_node x (set_lab true)
   | PTypeNode => update_node x (set_typ v)
+  | PNames =>
+      (* <Element>.set_properties(name=v): the sliver's set_name checks the syntax; the uniqueness check of 6648cd3 is
+         not on this path (proposed C07-8 puts it there, before anything is written) *)
+      (if fl_props_check fl then find1 x ;;; g <- getg ;; guard (negb (name_taken g x v)) ETopology else ret tt) ;;;
+      check_name (ref_cls r) v ;;; update_node x (set_name v)
   end.
 
 Definition elem_rename (fl : flags) (r : eref) (new : str) : M unit :=
